@@ -6,7 +6,7 @@ def main():
     from rv.run import setup_repo_import
     setup_repo_import()
     ok = True
-    for name in ("rv.iso", "rv.model.ntref", "rv.model.xsdref", "rv.model.sparqlref"):
+    for name in ("rv.iso", "rv.model.ntref", "rv.model.writers", "rv.model.xsdref", "rv.model.sparqlref"):
         try:
             m = importlib.import_module(name)
         except ModuleNotFoundError as ex:
